@@ -267,4 +267,88 @@ example :
       doneTags (step (step c (.api call)).1 (.peer (.suback 7 [2]))).2 = [21] := by
   decide
 
+/-! ## (e) packet identifiers -/
+
+/-- Every QoS 1/2 PUBLISH, SUBSCRIBE and UNSUBSCRIBE a connected client writes
+(`callReq call = some (k, id, tag)`: `id` is the identifier the caller
+supplied, 0 = none) carries exactly one identifier, `assigned c id`: the
+caller's when it supplied one, otherwise the next value of the library's
+counter, `(ctr + 1) % 65536`; and the request is registered in its ack queue
+under that same identifier. -/
+theorem C12_written_identifier (c : C) (hc : c.connected = true) (call : Api) (k : Kind) (id tag : Nat)
+    (h : callReq call = some (k, id, tag)) :
+    (step c (.api call)).2.filterMap writtenId = [assigned c id] ∧
+    (∀ r ∈ stepAccepted k c (.api call), r.id = assigned c id) ∧
+    (id ≠ 0 → assigned c id = id) ∧ (id = 0 → assigned c id = (c.ctr + 1) % 65536) := by
+  refine ⟨(step_api_written c hc call k id tag h).1, (step_api_written c hc call k id tag h).2, ?_, ?_⟩
+  · intro hne; simp [assigned, hne]
+  · intro h0; simp [assigned, h0]
+
+/-- The written identifier is non-zero exactly when the caller supplied one or
+the counter is not at 65535 (mod 65536). -/
+theorem C12_identifier_nonzero_iff (c : C) (id : Nat) :
+    assigned c id ≠ 0 ↔ id ≠ 0 ∨ c.ctr % 65536 ≠ 65535 :=
+  assigned_ne_zero_iff c id
+
+/-- the statement of the property: every identifier written is non-zero -/
+def C12_identifier_nonzero_full : Prop :=
+  ∀ (c : C) (call : Api) (k : Kind) (id tag : Nat), c.connected = true → callReq call = some (k, id, tag) →
+    ∀ i ∈ (step c (.api call)).2.filterMap writtenId, i ≠ 0
+
+/-- the part that holds of the code as modelled -/
+theorem C12_identifier_nonzero_partial (c : C) (call : Api) (k : Kind) (id tag : Nat) (hc : c.connected = true)
+    (h : callReq call = some (k, id, tag)) (hok : id ≠ 0 ∨ c.ctr % 65536 ≠ 65535) :
+    ∀ i ∈ (step c (.api call)).2.filterMap writtenId, i ≠ 0 := by
+  intro i hi
+  rw [(step_api_written c hc call k id tag h).1] at hi
+  have : i = assigned c id := by simpa using hi
+  rw [this]
+  exact (assigned_ne_zero_iff c id).mpr hok
+
+/-- It is false (defect A2, `message.gPacketID` wraps to 0): with the counter at
+65535 a QoS 1 publish without a caller-supplied identifier is written with
+packet identifier 0 and registered under 0. -/
+theorem C12_identifier_zero_counterexample : ¬ C12_identifier_nonzero_full ∧
+    (let c : C := { demoA with ctr := 65535 }
+     (step c (.api (.publish { qos := 1, topic := [97], payload := [1] } 4))).2 =
+       [.wrote (.publish { qos := 1, topic := [97], pktid := 0, payload := [1] })] ∧
+     (step c (.api (.publish { qos := 1, topic := [97], payload := [1] } 4))).1.pub1ack.map (·.id) = [9, 0]) := by
+  refine ⟨fun h => ?_, by decide⟩
+  exact h { demoA with ctr := 65535 } (.publish { qos := 1, topic := [97], payload := [1] } 4) .pub1 0 4
+    (by decide) (by decide) 0 (by decide) rfl
+
+/-- auto-assigned identifiers away from the wrap: three requests without identifiers get 1, 2, 3 -/
+example : runOuts (step init (.connect (.connack false 0))).1
+    [.api (.publish { qos := 1, topic := [97], payload := [1] } 1),
+     .api (.subscribe 0 [([97], 0)] 2 7),
+     .api (.unsubscribe 0 [[97]] 3),
+     .api (.publish { qos := 2, topic := [97], pktid := 77, payload := [1] } 4)] =
+    [[.wrote (.publish { qos := 1, topic := [97], pktid := 1, payload := [1] })],
+     [.wrote (.subscribe 2 [([97], 0)])],
+     [.wrote (.unsubscribe 3 [[97]])],
+     [.wrote (.publish { qos := 2, topic := [97], pktid := 77, payload := [1] })]] := by
+  decide
+
+/-- **Identifiers in flight are pairwise distinct**, in every state reached from
+a fresh client by any history (early acknowledgements, repeated identifiers
+and identifier 0 included): within each ack queue no two requests bear the
+same identifier - `Wait` ignores a registration under an identifier that is in
+flight. -/
+theorem C12_inflight_ids_distinct (evs : List Ev) (k : Kind) :
+    ((queue k (runState init evs)).map (·.id)).Nodup :=
+  idsNodup_run init evs idsNodup_init k
+
+/-- … and the invariant is inductive: preserved by every step from every state that has it. -/
+theorem C12_inflight_ids_distinct_step (c : C) (ev : Ev) (h : IdsNodup c) : IdsNodup (step c ev).1 :=
+  idsNodup_step c ev h
+
+/-- **Identifiers in flight are non-zero** in every state reached by a history
+in which every call either supplies its identifier or meets the counter away
+from the wrap (`IdOk`; the excluded case is `C12_identifier_zero_counterexample`). -/
+theorem C12_inflight_ids_nonzero_partial (evs : List Ev) (hok : IdOk init evs = true) (k : Kind) :
+    ∀ e ∈ queue k (runState init evs), e.id ≠ 0 :=
+  idsNonzero_run init evs idsNonzero_init hok k
+
+example : IdOk init demoC = true ∧ (queue .pub1 (runState init demoC)).map (·.id) = [3, 1] := by decide
+
 end Mqtt.Properties.C12
